@@ -186,7 +186,8 @@ def gen_spec(rng, fx, k, counters):
             m = rng.choice(("transform", "transform", "fit_transform", "kparams[]=", "kparams[]=", "wparams[]="))
         elif okind == "imager":
             s["ctor"] = slot % 2
-            m = rng.choice(("fit", "transform", "transform", "fit_transform", "pixel_size=", "birth_range=", "pers_range="))
+            m = rng.choice(("fit", "transform", "transform", "transform", "fit_transform", "pixel_size=", "birth_range=", "pers_range=",
+                            "shift_ranges", "shift_ranges"))
         else:
             # constructor arguments are a function of the object's identity (one object, one constructor call)
             a = {"num_steps": 9 if slot == 0 else 17, "hom_deg": k % 2, "flatten": (k + slot) % 2 == 1}
@@ -201,6 +202,8 @@ def gen_spec(rng, fx, k, counters):
             call["val"] = rng.choice(([0.0, 1.0], [-1.0, 2.0], [0.0, 4.0]))
         elif m == "pers_range=":
             call["val"] = rng.choice(([0.0, 1.0], [0.0, 2.5], [0.5, 3.0]))
+        elif m == "shift_ranges":
+            call["val"] = rng.choice((0.37, -0.5, 1.0, 2.25))
         elif m == "kparams[]=":
             call["val"] = rng.choice((0.05, 0.5, [[0.25, 0.0], [0.0, 0.25]], [[1.0, 0.5], [0.5, 1.0]]))
         elif m == "wparams[]=":
@@ -510,7 +513,7 @@ def run_case(case, sched):
                                         ("seeded-rng" if spec["fn"] == "gromov_hausdorff" else "value") + "/" + rep_tag(spec),
                                         "result differs from the same call executed alone in a fresh process at %s "
                                         "(history position %d, env %s)" % (where, opi, env), opi)
-            if spec["fn"] == "obj" and spec["call"]["m"] in ("fit", "fit_transform", "pixel_size=", "birth_range=", "pers_range=", "kparams[]=", "wparams[]="):
+            if spec["fn"] == "obj" and spec["call"]["m"] in ("fit", "fit_transform", "pixel_size=", "birth_range=", "pers_range=", "shift_ranges", "kparams[]=", "wparams[]="):
                 prefix.setdefault(spec["obj_id"], []).append(copy.deepcopy(spec["call"]))
             # ---- representation independence
             alt = op.get("alt_rep")
